@@ -396,6 +396,11 @@ class Ctx:
                     self.known_hits.append(msg)
                     print(msg, flush=True)
                 return
+        if getattr(self, "replaying", False):
+            # a replay re-evaluates the recorded input: nothing is written, the caller turns hits into the exit code
+            self.replay_hits = getattr(self, "replay_hits", []) + [(kind, what)]
+            print(f"  reproduced: {kind}: {what[:400]}", flush=True)
+            return
         path = self.replay_path()
         doc = {"property": self.prop, "tier": self.tier, "seed": self.seed, "kind": kind, "what": what,
                "key": key, "replay_cmd": f"./check {self.prop} --replay {os.path.relpath(path, VERIF)}"}
